@@ -18,7 +18,9 @@ vars == <<l, viols, lc, loopg, hs, pend, req, eng, failed>>
 
 NewC == [life |-> "none", g |-> 0, loop |-> -1, h |-> 0, praddr |-> "", plisten |-> "", localReq |-> FALSE, peerShut |-> "no",
          traffic |-> 0, wakeTraffic |-> 0, wakeCb |-> 0, wakeIss |-> 0]
-NewE == [booted |-> FALSE, stopReq |-> FALSE, onShutdown |-> 0, runRet |-> FALSE, opened |-> 0, closed |-> 0, bootStop |-> FALSE]
+NewE == [booted |-> FALSE, stopReq |-> FALSE, onShutdown |-> 0, runRet |-> FALSE, opened |-> 0, closed |-> 0, bootStop |-> FALSE,
+         \* the ticker: configured?, number of the last tick begun, a tick is running, its goroutine, earliest time (ms) of the next
+         ticker |-> FALSE, tickN |-> 0, tickBusy |-> FALSE, tickG |-> 0, tickDue |-> 0]
 C(c) == Get(lc, c, NewC)
 
 Init == /\ l = 1 /\ viols = <<>> /\ lc = Empty /\ loopg = Empty /\ hs = {} /\ pend = Empty /\ req = Empty /\ eng = NewE /\ failed = {}
@@ -38,7 +40,7 @@ Final(vs, what) == Check(~eng.runRet, "NoCallbackAfterReturn", what, vs)
 Step1 ==
     /\ More
     /\ LET e == Ev IN
-       CASE e.ev = "Reset" -> Step(Empty, Empty, {}, Empty, Empty, NewE, viols)
+       CASE e.ev = "Reset" -> Step(Empty, Empty, {}, Empty, Empty, [NewE EXCEPT !.ticker = ("ticker" \in DOMAIN e /\ e.ticker = TRUE)], viols)
          [] e.ev = "Boot" -> Step(lc, loopg, hs, pend, req, [eng EXCEPT !.booted = TRUE], viols)
          [] e.ev = "PeerDial" -> SetC(e.c, [C(e.c) EXCEPT !.praddr = e.laddr, !.plisten = e.raddr], viols)
          [] e.ev = "PeerShut" -> SetC(e.c, [C(e.c) EXCEPT !.peerShut = e.how], viols)
@@ -130,7 +132,19 @@ Step1 ==
          \* C19: Register / Enroll / Dial deliver exactly one result, an error or a connection that can be used
          [] e.ev = "RegResult" -> Same(Check(e.err # "nil" \/ (e.fd >= 0 /\ e.usable), "RegisterYieldsUsableOrError", <<e.api, e.err, e.fd, e.usable, e.injected>>, viols))
          [] e.ev = "RegNoResult" -> Same(Check(FALSE, "RegisterYieldsOneResult", <<e.api, e.injected>>, viols))
-         [] e.ev \in {"Tick", "TickEnd"} -> Same(Final(viols, e.ev))
+         \* the ticker (documented: "fires immediately after the engine starts and will fire again following the
+         \* duration specified by the delay return value"): one tick at a time, all on one goroutine, numbered
+         \* without gaps, never before the delay returned by the previous one has elapsed (monotonic clock of the
+         \* recording process, whole milliseconds: floor is monotone, so no slack is needed), none after Run returned
+         [] e.ev = "Tick" ->
+              LET v0 == Final(viols, "Tick")
+                  v1 == Check(~eng.tickBusy /\ e.n = eng.tickN + 1, "TicksOneAtATime", <<e.n, eng.tickN, eng.tickBusy>>, v0)
+                  v2 == Check(eng.tickN = 0 \/ e.g = eng.tickG, "TickerOneGoroutine", <<e.g, eng.tickG>>, v1)
+                  v3 == Check(eng.tickN = 0 \/ e.ms >= eng.tickDue, "TickNotBeforeDelay", <<e.n, e.ms, eng.tickDue>>, v2)
+              IN Step(lc, loopg, hs, pend, req, [eng EXCEPT !.tickN = e.n, !.tickBusy = TRUE, !.tickG = e.g], v3)
+         [] e.ev = "TickEnd" ->
+              Step(lc, loopg, hs, pend, req, [eng EXCEPT !.tickBusy = FALSE, !.tickDue = e.ms + e.delay],
+                   Check(eng.tickBusy /\ e.n = eng.tickN, "TicksOneAtATime", <<e.n, eng.tickN, eng.tickBusy>>, Final(viols, "TickEnd")))
          [] e.ev = "RunRet" ->
               LET open == {c \in DOMAIN lc : lc[c].life = "open"}
                   v1 == Check(e.err = "nil", "RunReturnsNil", e.err, viols)
@@ -138,7 +152,11 @@ Step1 ==
                   \* a Shutdown action from OnBoot: Run returns at once without starting anything (no callbacks at all)
                   v3 == Check(IF eng.bootStop THEN eng.onShutdown = 0 /\ eng.opened = 0 ELSE eng.onShutdown = 1,
                               IF eng.bootStop THEN "BootShutdownStartsNothing" ELSE "OnShutdownOnce", eng.onShutdown, v2)
-              IN Step(lc, loopg, hs, pend, req, [eng EXCEPT !.runRet = TRUE], v3)
+                  \* the ticker is started with the engine and joined by its shutdown: with WithTicker(true) at least the
+                  \* immediate first tick has run, and no tick is still running, when Run returns
+                  v4 == Check(~(eng.ticker /\ eng.booted /\ ~eng.bootStop /\ e.err = "nil") \/ (eng.tickN >= 1 /\ ~eng.tickBusy),
+                              "TickerRanAndEnded", <<eng.tickN, eng.tickBusy>>, v3)
+              IN Step(lc, loopg, hs, pend, req, [eng EXCEPT !.runRet = TRUE], v4)
          [] e.ev \in {"RunStuck", "PeersTimeout", "OpenUnknown", "TrafficUnknown", "CloseUnknown"} ->
               Same(Check(FALSE, IF e.ev = "RunStuck" THEN "RunReturnsInBoundedTime"
                                 ELSE IF e.ev = "PeersTimeout" THEN "PeersServedInBoundedTime" ELSE "NeverOnOtherConn", e.ev, viols))
